@@ -160,6 +160,9 @@ class StmtOps:
             if base.kind == 'val':
                 base = self.narrow(base)
             idx = self.ev(t.slice)
+            if isinstance(node, ast.Assign) and isinstance(node.value, ast.Subscript) and \
+                    ast.dump(node.value.value) == ast.dump(t.value) and ast.dump(node.value.slice) == ast.dump(t.slice):
+                return      # x[i] = x[i]: no effect (the read already carried the bounds obligation)
             if base.kind == 'dict':
                 if base.is_const:
                     raise Unsupported('store into constant dict', node)
@@ -404,6 +407,11 @@ class StmtOps:
             self.eval_invs(ann, mk_add(i, '1'), 'loop #%d invariant preserved' % ordn, node, assume=False)
             raise PathEnd('loop-back')
         # exit
+        for name, ty in ann.get('defines', {}).items():
+            # variables first assigned in the body and read after the loop
+            if count is not None:
+                st.oblige(mk_lt('0', count), 'loop #%d runs at least once (it defines %s)' % (ordn, name), node.lineno)
+            st.env[name] = self.fresh_typed('ld_' + name, ty)
         if count is not None:
             st.assume(mk_eq(i, count), 'loop')
         else:
